@@ -5,7 +5,7 @@ use crate::{
     base::{BaseSlot, BlockError, EntryContext, MetricEvent, StatNode, StatSlot, TrafficType},
     utils::curr_time_millis,
 };
-use lazy_static::lazy_static;
+use crate::vsync::lazy_static;
 use std::sync::Arc;
 
 const STAT_SLOT_ORDER: u32 = 1000;
